@@ -65,6 +65,8 @@ def oracle_c17(line, impl, model_kv, impl_kv=None, model=None):
             if impl != want: return "to_insn_vec differs from the slots"
     elif t[0] == "bld":
         if f.get("b") != f.get("e"): return "builder bytes differ from the instruction encoder's"
+        if model_kv.get("canon") == "1" and f.get("a") not in (None, "skip") and f.get("a") != f.get("b"):
+            return "the assembler gives '%s' for the text of an instruction the builder encodes as %s" % (f.get("a"), f.get("b"))
     return None
 
 # ---------------------------------------------------------------------------- C06
@@ -277,11 +279,11 @@ PROPS = {
         trusted=["AtomicU32/AtomicU64::fetch_add, x86 `lock add` and Cranelift `atomic_rmw` are each one indivisible step (the model's unit of interleaving)"],
     ),
     "C20": dict(
-        custom="run_c20", suites=["asm", "asmfuzz%4", "dis%2", "verify%3", "exec-matrix%4", "exec-memops", "exec-random%2", "exec-calls%3"], level="proof",
-        proof_of=["C01", "C06", "C13", "C14", "C15"],
+        custom="run_c20", suites=["asm", "asmfuzz%4", "dis%2", "verify%3", "exec-matrix%4", "exec-memops", "exec-random%2", "exec-calls%3", "api%2"], level="proof",
+        proof_of=["C01", "C06", "C13", "C14", "C15", "C10"],
         nontrivial=lambda line, impl: True,
         rule="both builds of the crate (default features; default-features = false, i.e. no_std) are driven over the same case files: the whole asm suite, every 4th asmfuzz text, every 2nd dis case, "
-             "every 3rd verify byte string, every 4th case of the C01 operation matrix, the memory matrix, every 2nd random program and every 3rd call graph - the interpreter on all of them and the x86-64 JIT "
+             "every 3rd verify byte string, every 4th case of the C01 operation matrix, the memory matrix, every 2nd random program and every 3rd call graph, every 2nd API history of the C10 suite (load / set_verifier / register_helper / jit_compile / execute / execute_jit on the four VM kinds; the Cranelift operations, absent without std, removed) - the interpreter on all of them and the x86-64 JIT "
              "(no_std: running from caller-supplied mmap'ed executable memory through set_jit_exec_memory). Each transcript is diffed against the one Lean model (each with its own echoed host addresses) and the two "
              "transcripts against each other wherever the outcome is address-independent. The quantifier over feature configurations {std, no_std} is enumerated completely. Non-trivial: distinct case line.",
         trusted=["the no_std harness is a separate small crate (harness_nostd) printing the same formats"], exhaustive=False,
@@ -323,9 +325,9 @@ PROPS = {
         trusted=EXEC_TRUST,
     ),
     "C13": dict(
-        suites=["asm"], oracle=oracle_c14, level="proof", model_is_spec=True,
+        suites=["asm", "asmfuzz"], oracle=oracle_c14, level="proof", model_is_spec=True,
         nontrivial=lambda line, impl: impl.startswith("ok ") or (impl == "err" and "want=err" in line),
-        rule="suite asm: AST-directed texts - every documented mnemonic (92) x registers 0..17 x boundary offsets in/around [-32768,32767] x immediates in/around [-2^31,2^31-1] (64-bit boundary values for lddw) "
+        rule="suites asm + asmfuzz (the latter against the proved model: oversized decimal/hex literals incl. [2^63, 2^64] and beyond must be errors, never wrapped into range). asm: AST-directed texts - every documented mnemonic (92) x registers 0..17 x boundary offsets in/around [-32768,32767] x immediates in/around [-2^31,2^31-1] (64-bit boundary values for lddw) "
              "x register/immediate form x spellings (decimal, hex lower/upper case, leading zeros, explicit '+', '-') x whitespace variants (spaces, tabs, newlines, none after commas); every ordered pair of "
              "mnemonics (source order, 'exit' followed by 'rsh'); programs of 1..8 instructions; wrong operand shapes and unknown mnemonics. Oracle: the bytes computed by the generator's own encoder from the AST "
              "(want=ok:<hex>) or want=err for out-of-range operands; plus equality with the proved model. Non-trivial: distinct text with an expected result.",
@@ -430,6 +432,13 @@ def run_c20(core, pid, tier, seed, replay):
             got = core.gen_cases(name, tier, seed, [])
             if sel: got = got[::int(sel)]
             if name.startswith("exec"): got = [l + " engines=jit kind=mbuff" for l in got if " extra=" not in l and " kind=" not in l]
+            if name == "api":
+                # the Cranelift entry points do not exist without `std`: the histories are run without those two operations, on both builds
+                def strip(l):
+                    pre, _, ops = l.partition(" ops=")
+                    keep = [o for o in ops.split(";") if o not in ("cc", "xc")]
+                    return pre + " ops=" + ";".join(keep) if keep else None
+                got = [x for x in (strip(l) for l in got) if x]
             lines += got
     a = core.run_both(lines); b = core.run_both(lines, harn_bin=core.HARN_NOSTD_BIN)
     ai = a["impl"][0].split("\n")[:-1]; am = a["model"][0].split("\n")[:-1]
